@@ -19,7 +19,7 @@ from pv.runner import Res
 ID = "C13"
 RULE = ("polynomial conditions of degree <= 3 and quotients by a monomial over <= 4 fluents (names with dashes, "
         "underscores, digits; lifted and grounded arguments), coefficients that are small integers, short decimals, "
-        "near-integers k +- 1e-5 and sub-precision values, all comparison operators, 0-2 linear equalities usable for "
+        "near-integers k +- 1e-5, sub-precision values and constants of drawn magnitude (up to 1e7) with 0-7 decimals, all comparison operators, 0-2 linear equalities usable for "
         "elimination, decimal digits 0..6 and the default; entry points simplify_complex_numeric_expression, "
         "simplify_inequality, simplify_equality, simplify_complex_numerical_pddl_expression and "
         "Precondition.print(should_simplify=True).  Non-trivial = >= 2 fluents and a product, or an equality used "
@@ -151,11 +151,53 @@ def mult_depth(e):
     return 1
 
 
+def propagated(e, p, half):
+    """(value, bound on the change of the value) at point p when every printed constant of e may be off by
+    `half` (first-order interval propagation, exact rationals).  None = a divisor may vanish within the bound."""
+    if isinstance(e, str):
+        return Fraction(e), half
+    h = e[0]
+    if h in ("+", "-", "*", "/", "=", "<", "<=", ">", ">=") and len(e) == 3:
+        a, b = propagated(e[1], p, half), propagated(e[2], p, half)
+        if a is None or b is None:
+            return None
+        (va, ea), (vb, eb) = a, b
+        if h == "+":
+            return va + vb, ea + eb
+        if h == "*":
+            return va * vb, abs(va) * eb + abs(vb) * ea + ea * eb
+        if h == "/":
+            if abs(vb) <= eb:
+                return None
+            return va / vb, (abs(va) * eb + abs(vb) * ea) / (abs(vb) * (abs(vb) - eb))
+        return va - vb, ea + eb
+    return p[term_str(e)], Fraction(0)
+
+
 def allowance(out_ast, p, digits):
-    """Largest change of D_out that rounding every printed coefficient by half a unit of the last
-    decimal can cause at point p (each leaf contributes at most 10^-d * |monomial value|)."""
+    """Largest change of D_out that rounding every printed coefficient by half a unit of the last decimal
+    can cause at point p: the propagated bound (large coefficients multiply the rounding of their co-factors),
+    never below the flat per-leaf bound."""
     big = max([max(abs(v), 1 / abs(v)) if v else Fraction(1) for v in p.values()] + [Fraction(1)])
-    return n_leaves(out_ast) * Fraction(1, 2 * 10 ** digits) * big ** max(1, min(mult_depth(out_ast), 4)) + Fraction(1, 10 ** 9)
+    half = Fraction(1, 2 * 10 ** digits)
+    flat = n_leaves(out_ast) * half * big ** max(1, min(mult_depth(out_ast), 4)) + Fraction(1, 10 ** 9)
+    try:
+        pr = propagated(out_ast, p, half)
+    except (KeyError, ZeroDivisionError, ValueError):
+        pr = None
+    if pr is None:
+        return flat
+    return max(flat, pr[1] + Fraction(1, 10 ** 9))
+
+
+def coef_mass(e):
+    """Product of max(1, |c|) over the constants of e: no normalisation divides by more than this."""
+    if isinstance(e, str):
+        return max(Fraction(1), abs(Fraction(e))) if poly.is_number(e) else Fraction(1)
+    m = Fraction(1)
+    for x in e[1:] if e and e[0] in ("+", "-", "*", "/", "=", "<", "<=", ">", ">=") else []:
+        m *= coef_mass(x)
+    return m
 
 
 def judge_equivalence(res, tag, info, in_cond, out_ast, points, digits, need_positive):
@@ -185,7 +227,7 @@ def judge_equivalence(res, tag, info, in_cond, out_ast, points, digits, need_pos
                 continue
             k = dout / din
             k_err = tol / abs(din)          # the scale itself is only known up to the rounding at this point
-            if abs(k) < Fraction(1, 1000) or (need_positive and k < 0):
+            if abs(k) < Fraction(1, 1000) / coef_mass(in_cond) or (need_positive and k < 0):
                 res.bad(f"C13/{tag}/not-equivalent", {**info, "point": {a: str(b) for a, b in p.items()}, "input_delta": str(din), "output_delta": str(dout), "note": "sign or zero scale"})
                 return
             if need_positive and abs(k - 1) > Fraction(1, 2):
@@ -503,7 +545,20 @@ def gen_fluents(ch):
     return [[n, list(ch.choice(ARGSETS))] for n in names]
 
 
+def gen_long(ch):
+    """A constant with a drawn magnitude and a drawn number of decimals (up to 8 significant digits and beyond)."""
+    ip = ch.choice(["0", str(ch.int(1, 9)), str(ch.int(10, 99)), str(ch.int(100, 9999)), str(ch.int(10000, 9999999))])
+    nd = ch.int(0, 7)
+    frac = "".join(ch.choice("0123456789") for _ in range(nd))
+    txt = ip + ("." + frac if nd else "")
+    if Fraction(txt) == 0:
+        txt = "0.5"
+    return ("-" if ch.flag(0.25) else "") + txt
+
+
 def gen_coef(ch, cls):
+    if cls == "long":
+        return gen_long(ch) if ch.flag(0.7) else ch.choice(COEFS_INT + COEFS_DEC)
     pool = {"int": COEFS_INT, "dec": COEFS_INT + COEFS_DEC, "near": COEFS_NEAR + COEFS_INT, "tiny": COEFS_TINY + COEFS_DEC}[cls]
     return ch.choice(pool)
 
@@ -533,7 +588,7 @@ def gen_poly(ch, terms, maxdeg, cls, nmon=None):
 def gen(ch, tier):
     fl = gen_fluents(ch)
     terms = [[n] + a for n, a in fl]
-    cls = ch.weighted([(4, "dec"), (3, "int"), (2, "near"), (1, "tiny")])
+    cls = ch.weighted([(4, "dec"), (3, "int"), (2, "near"), (1, "tiny"), (3, "long")])
     entry = ch.weighted([(3, "ineq"), (2, "eq"), (2, "expr"), (2, "tree"), (3, "print")])
     digits = ch.choice([None, 0, 1, 2, 3, 4, 5, 6, 4, 4])
     shape = ch.weighted([(5, "poly"), (1, "quotient"), (1, "factored")])
@@ -564,7 +619,7 @@ def gen(ch, tier):
             others = [t for t in terms if term_str(t) not in used]
             if not others:
                 break
-            rest = gen_poly(ch, others, 1, "dec" if cls in ("near", "tiny") else cls, ch.int(1, 2))
+            rest = gen_poly(ch, others, 1, "dec" if cls in ("near", "tiny", "long") else cls, ch.int(1, 2))
             eqs.append(["=", ["+", list(a), rest], ch.choice(["0", "0", gen_coef(ch, "int")])])
         case["equalities"] = eqs
     if entry == "print":
